@@ -116,6 +116,7 @@ class Gen:
         self.nfn = 0
         self.captures = {}
         self.pending = []
+        self.in_loop = 0
 
     # ------------------------------------------------------------------ expressions
     def const(self, t):
@@ -368,6 +369,9 @@ class Gen:
             self.features.add('multi_use')
             v = r.choice(multi)
             src, ts = self.agnostic(sc, v)
+            av = [n for n in av if n != v]       # `v = (v, 1)` in a loop has no finite type: the inference would never stop
+            if not av:
+                return again()
             x = r.choice(av)
             sc.env[x] = ts
             return [pad + '%s = %s' % (x, src)]
@@ -421,7 +425,10 @@ class Gen:
         if k == 'def':
             return self.gen_def(sc, depth, ind)
         if k == 'call':
-            name = r.choice(sorted(sc.fns))
+            names = sorted(g for g, sg in sc.fns.items() if not (sg.effects and self.in_loop))
+            if not names:
+                return again()
+            name = r.choice(names)
             sig = sc.fns[name]
             src = self.local_call(sc, name, 0)
             if r.random() < 0.25:
@@ -526,6 +533,7 @@ class Gen:
             self.features.add('loop_retype')
         tmp_frozen = [v for v in sc.env if v not in sc.frozen]
         sc.frozen.update(tmp_frozen)
+        self.in_loop += 1            # no calls to functions that re-type nonlocals inside loops (types must be loop-invariant)
         body_sc = sc.copy()
         body = []
         if loopvar is not None:
@@ -549,6 +557,7 @@ class Gen:
             if i < nb:
                 body += self.stmts(body_sc, 1, depth + 1, ind + 1)
         sc.frozen.difference_update(tmp_frozen)
+        self.in_loop -= 1
         after = sc.copy()
         sc.merge(after, body_sc)
         return body
